@@ -52,10 +52,8 @@ CLAIMS["C14"] = ("PARTIAL. Lean theorems about a labelled transition system of E
                  "Trusted: Lean kernel; io.Pipe contract as modelled; harness watchdog.")
 CLAIMS["C01"] = ("PARTIAL. Lean theorems: the schema regenerated from types.go/encoder.go equals the committed one (every tag, omitempty, format/scan literal, replacer pair, cp1252 table); for EVERY text the encoder's output (Go EscapeText then the replacer) followed by markup is read back by the decoder's character-data reader as the same text with only non-XML characters substituted (text_roundtrip, text_roundtrip_exact); windows-1252 encode/decode inversion; Duration print/parse = truncation to centiseconds and stable re-encoding for every non-negative duration. The executable model of encoding/xml marshal/unmarshal + all 17 codecs must reproduce the implementation's bytes and decoded values on every generated database, and the implementation's own encode->decode->encode is judged against the declarative quantisation Spec.quant.",
                  "Trusted: Lean kernel; hand model of encoding/xml; float<->decimal model validated per run; gzip / x-text as libraries.")
-CLAIMS["C13"] = ("PARTIAL. Lean theorems: schema tie; every document starts with the UTF-8 declaration; for EVERY text the bytes written are the character-wise LapTimer spelling and a strict character-data decoder (predefined entities only) returns the original text with non-XML characters substituted, never raw; LF/TAB literal, quotes as &quot;/&apos;; integers need no escaping. Tree-level strict well-formedness, exact element structure and all field grammars are decided per generated document by an independent strict tokenizer and grammar predicates; gzip output is gunzipped and compared.",
-                 "Trusted: Lean kernel; strict tokenizer/grammar predicates; float formatting model; compress/gzip.")
-CLAIMS["C20"] = ("PARTIAL. Lean theorem loadConfig_is_spec / shipped_commands_resolve_by_precedence: for every command of the flag table extracted from cmd/tracktools/cmd (equality with the committed table and its well-formedness are kernel-checked), for EVERY set of given flags with any values and EVERY configuration tree, the model of loadConfig (section lookup, removal of the given flags' keys at any nesting depth, mapstructure decode onto the flag-populated struct) yields per option: flag if given, else the config file's value, else the default, failing iff a stated value does not fit. The built binary is run on generated flag/config/default combinations; its effective options (own trace line) must equal the model, convert's bytes must equal the library pipeline for those options, failures must exit non-zero with a message, laptimes must report exactly the readings OnLine accepts for the effective start line.",
-                 "Trusted: Lean kernel; cobra/pflag/viper/mapstructure as observed libraries; trace line as observation point.")
+CLAIMS["C13"] = ("Lean theorems, for every database whose marshalled token stream is an element tree with schema names (premise evaluated on every generated case): document_is_wellformed — the encoder's bytes are the UTF-8 header followed by a body that a strict XML tokenizer (five predefined entities, character references, XML Char range, nesting check) accepts with no syntax error and that, layout whitespace aside, reads back as exactly that tree with every text returned as the original with only non-XML characters substituted; document_is_laptimer_rendering (markup and indentation untouched by the replacer, line-by-line filtering = whole-document replacing); for EVERY text: character-wise LapTimer spelling, LF/TAB literal, quotes as predefined entities; field syntax proved for every value for durations (MM:SS.cc) and lap dates 1969–2068 (DD-MON-YY,HH:MM:SS upper case UTC); schema tie. PARTIAL only in: the numeric field grammars that depend on float formatting (coordinates, fixed decimals) and the marshaller's walk (struct order, omitempty), which are decided per generated document by the grammar predicates and by model = implementation; gzip output is gunzipped and compared.",
+                 "Trusted: Lean kernel; hand model of encoding/xml's printer and of the marshaller; float formatting model; compress/gzip.")
 
 NA_REASON = "check under construction in this round (design in DESIGN.md); will be claimed once its model, theorems and correspondence exist"
 
